@@ -136,6 +136,8 @@ def state_case(rep, spec, index):
     with guards.calc_tap() as taps:
         st, curve = _guard(lambda: pv.ideal_diffusion_curve(T, [x], tp, pp, prec, model))
     if st == "ok":
+        if index % 4 == 0:
+            proc.plot_everything(curve)  # looking at the curve first must not change what it reports
         same_args("ideal_diffusion_curve", taps)
         rep.require("one-point ideal curve reports the standalone fluxes (bitwise)", pair(curve.partial_fluxes[0]) == j, case,
                     {"curve": pair(curve.partial_fluxes[0]), "standalone": j})
